@@ -165,6 +165,9 @@ def attr_value(rng, sp, f, enums, safe=False):
     raise ValueError(t)
 
 
+ODD_IDS = ['', '/x', '#x', 'a\tb', 'a\nb', '//@kids.0', 'x y', 'a#b', ' ', 'é', '0', 'id 1', '/']
+
+
 class Model:
     """a generated model over a built metamodel"""
 
@@ -214,6 +217,11 @@ def gen_model(rng, sp, built=None, nobj=None, values='boundary', ids_unique=True
             if f['id']:
                 if r < .8:
                     v = f'id{len(used_ids)}'
+                    if values == 'boundary' and rng.random() < .3:
+                        # ids that cannot stand for their object in a reference token (each distinct, once per model)
+                        odd = [x for x in ODD_IDS if x not in used_ids]
+                        if odd:
+                            v = rng.choice(odd)
                     used_ids.add(v)
                     setattr(o, f['name'], v)
                 continue
